@@ -30,6 +30,17 @@ impl Block {
         self.size = size;
     }
 
+    /// Makes this an empty block at the given position.
+    ///
+    /// This is used when there is no block left to read, i.e., at EOF, so that the data of the
+    /// previously read block is not returned again.
+    pub fn clear(&mut self, position: u64) {
+        self.pos = position;
+        self.size = 0;
+        self.data.set_position(0);
+        self.data.resize(0);
+    }
+
     /// Returns the virtual position at the current position in the uncompressed data stream.
     pub fn virtual_position(&self) -> VirtualPosition {
         if self.data.has_remaining() {
